@@ -41,10 +41,48 @@ def seeded():
     return "\n".join(out) + "\n"
 
 
+def _jsonl(name):
+    p = os.path.join(ROOT, "notes", name)
+    if not os.path.exists(p):
+        return []
+    rows = {}
+    for ln in open(p):
+        if ln.strip():
+            r = json.loads(ln)
+            rows[r.get("commit") or r.get("mutant")] = r  # last run wins
+    return list(rows.values())
+
+
+def reverts():
+    out = ["| reverted commit | check | result | first signatures |", "|---|---|---|---|"]
+    n = c = 0
+    for r in _jsonl("revert_fix.jsonl"):
+        if r.get("revert") != "clean":
+            out.append(f"| {r['commit']} {r['subject'][:70]} | - | revert does not apply cleanly (later commits build on it) | |")
+            continue
+        for k, v in r.items():
+            if not (k.startswith("C") and isinstance(v, dict)):
+                continue
+            n += 1
+            c += bool(v.get("caught"))
+            sigs = "; ".join(x.replace("|", "\\|")[:60] for x in v.get("signatures", [])[:2])
+            out.append(f"| {r['commit']} {r['subject'][5:75]} | {k} | {'**caught**' if v.get('caught') else 'MISSED'} (exit {v.get('exit')}, {v.get('wall_s')} s) | {sigs} |")
+    return f"{c} of {n} (commit, check) pairs caught by the generated search alone:\n\n" + "\n".join(out) + "\n"
+
+
+def leadmut():
+    out = ["| mutant | check | change | result | first signatures |", "|---|---|---|---|---|"]
+    for r in _jsonl("lead_mutants.jsonl"):
+        sigs = "; ".join(x.replace("|", "\\|")[:60] for x in r.get("signatures", [])[:2])
+        chg = (r["old"].strip().replace("\n", " ")[:60] + " -> " + (r["new"].strip().replace("\n", " ")[:60] or "(removed)")).replace("|", "\\|")
+        out.append(f"| {r['mutant']} | {r['check']} | `{r['file']}`: `{chg}` | {'**caught**' if r.get('caught') else 'MISSED'} (exit {r.get('exit')}, {r.get('wall_s')} s) | {sigs} |")
+    return "\n".join(out) + "\n"
+
+
 def main():
     p = os.path.join(ROOT, "DESIGN.md")
     s = open(p).read()
-    for name, fn in (("fixes", fixes), ("known", known), ("seeded", seeded)):
+    for name, fn in (("fixes", fixes), ("known", known), ("seeded", seeded), ("reverts", reverts), ("leadmut", leadmut)):
         rx = re.compile(rf"(<!-- gen:{name} -->\n).*?(<!-- /gen:{name} -->)", re.S)
         if rx.search(s):
             body = fn()
